@@ -125,7 +125,7 @@ pub fn model_edit(doc: &Doc, tree: &RTree, selected: &[usize], frag: &[Node]) ->
 // ------------------------------------------------------------------------------------------------
 // generators
 
-const FRAG_TEXTS: &[&str] = &["new", "x y", "\u{e9}\u{1d4b3}", " ", "a]b", "1 > 0", "q'q", "d\"d", "-", "v"];
+const FRAG_TEXTS: &[&str] = &["new", "x y", "\u{e9}\u{1d4b3}", " ", "a]b", "1 > 0", "q'q", "d\"d", "-", "v", "say \"it's\"", "'\"", "\"'\"'"];
 
 fn gen_fragment(r: &mut Rng, kind: usize) -> (Vec<Node>, &'static str) {
     let leaf = |r: &mut Rng, n: &str| Node::Elem(Elem { local: n.into(), attrs: if r.chance(1, 2) { vec![Attr { prefix: None, local: "k".into(), value: if r.chance(1, 3) {
